@@ -43,8 +43,12 @@ pub enum Step {
   Crash { point: String, occ: u64 },
   /// log the full projected state
   State,
-  /// index the node's current chain from scratch in a second directory and log its digest
-  Fresh,
+  /// index the node's current chain (up to `limit` blocks) from scratch in a second directory
+  /// and log its digest
+  Fresh {
+    #[serde(default, skip_serializing_if = "Option::is_none")]
+    limit: Option<u32>,
+  },
 }
 
 #[derive(Clone, Debug, Default, Serialize, Deserialize)]
